@@ -117,6 +117,11 @@ def mixed(k):
     s["rec_nest"] = "do f() start\n return " + "(" * k + "f()" + ")" * k + "\nend\nshout(f())"
     # plain blocks evaluate nothing: the longest stretch between two stack probes the front end accepts
     s["rec_nest_blocks"] = "do f() start\n" + "start\n" * (2 * k) + "return f()\n" + "end\n" * (2 * k) + "return 1\nend\nshout(f())"
+    # the worst case for a budget probe: a recursion that climbs in SMALL steps and, at every level, runs the longest
+    # stretch the front end accepts without evaluating anything (nested blocks around a bare `return`) - some level
+    # starts that stretch with the stack just below the budget
+    s["rec_fine_steps_then_deep"] = "do deep() start\n" + "start\n" * (2 * k) + "return\n" + "end\n" * (2 * k) + "end\ndo climb(n) start\n deep()\n return climb(n add 1)\nend\nshout(climb(0))"
+    s["rec_fine_steps_then_deep_ifs"] = "do deep() start\n" + "if to say (true) start\n" * k + "start\n" * k + "return\n" + "end\n" * (2 * k) + "end\ndo climb(n) start\n deep()\n return climb(n add 1)\nend\nshout(climb(0))"
     return s
 
 
@@ -127,7 +132,9 @@ def frontier(binp, gen, name, td, hi=4096):
         with open(path, "w") as f:
             f.write(gen(n)[name])
         p = subprocess.run([binp, "f.ns"], cwd=td, capture_output=True, timeout=300)
-        return p.returncode >= 0 and NAMES.get("deep", "Nesting too deep") not in p.stdout.decode(errors="replace") and "overflowed its stack" not in p.stderr.decode(errors="replace")
+        # accepted = not refused by the front end's limit; a native crash at n is NOT a refusal (the run at the
+        # frontier below reports it)
+        return NAMES.get("deep", "Nesting too deep") not in p.stdout.decode(errors="replace")
     if accepted(hi):
         return hi
     lo = 1
